@@ -58,9 +58,9 @@ func TestVerifC07(t *testing.T) {
 	r := vlib.Start("C07", vPart("det"))
 	defer r.Finish()
 	rr := r.Rand("c07", r.Part)
-	n := r.Pick(1000, 100000)
+	n := r.Pick(1000, 400000)
 	if r.Part != "det" {
-		n = r.Pick(150, 3000)
+		n = r.Pick(150, 6000)
 	}
 	for i := 0; i < n; i++ {
 		c := &advCase{ID: fmt.Sprintf("hist/%d", i), Fwd: true, Terminate: true, Seed: time.Duration(rr.Int63n(1e9))}
@@ -148,9 +148,9 @@ func TestVerifC08(t *testing.T) {
 	r := vlib.Start("C08", vPart("det"))
 	defer r.Finish()
 	rr := r.Rand("c08", r.Part)
-	n := r.Pick(480, 40000)
+	n := r.Pick(480, 200000)
 	if r.Part != "det" {
-		n = r.Pick(150, 2000)
+		n = r.Pick(150, 5000)
 	}
 	lats := []time.Duration{0, vMs, 2 * vMs, 5 * vMs}
 	// transmit latencies from 1 ms to several seconds: a stop must wait for a
@@ -458,9 +458,9 @@ func TestVerifC09(t *testing.T) {
 	}
 	// random sequences mixing valid, invalid and read time-outs
 	rr := r.Rand("c09", r.Part)
-	n := r.Pick(300, 40000)
+	n := r.Pick(300, 200000)
 	if r.Part != "det" {
-		n = r.Pick(100, 1000)
+		n = r.Pick(100, 4000)
 	}
 	for i := 0; i < n; i++ {
 		c := &advCase{ID: fmt.Sprintf("rand/%d", i), Fwd: true, Terminate: true, Seed: time.Duration(rr.Int63n(1e9))}
